@@ -11,6 +11,7 @@ package kv
 
 import (
 	"context"
+	"errors"
 	"fmt"
 	"strings"
 	"sync"
@@ -60,9 +61,14 @@ func canonCmds(cs [][]string) string {
 	return strings.Join(parts, " ; ")
 }
 
-// c12Call invokes one wrapper method (plain or Ctx form); only the emitted command matters.
+// c12Call invokes one wrapper method (plain or Ctx form) and returns the method's error.
 func c12Call(r *redis.Redis, m string, a kit.M, uc bool) error {
-	ctx := context.Background()
+	_, err := c12CallCtx(context.Background(), r, m, a, uc)
+	return err
+}
+
+// c12CallCtx: known = false if the driver has no call for the method.
+func c12CallCtx(ctx context.Context, r *redis.Redis, m string, a kit.M, uc bool) (known bool, err error) {
 	k, s := kit.Str(a["k"]), kit.Str(a["s"])
 	n, x, y := int64(kit.Num(a["n"])), int64(kit.Num(a["x"])), int64(kit.Num(a["y"]))
 	f, dst := kit.Str(a["f"]), kit.Str(a["dst"])
@@ -70,7 +76,6 @@ func c12Call(r *redis.Redis, m string, a kit.M, uc bool) error {
 	anySS := kit.List(a["ss"])
 	page, size := kit.Num(a["page"]), kit.Num(a["size"])
 	bit := kit.Num(a["bit"])
-	var err error
 	do := func(plain, withCtx func()) {
 		if uc {
 			withCtx()
@@ -186,6 +191,13 @@ func c12Call(r *redis.Redis, m string, a kit.M, uc bool) error {
 		do(func() { err = r.PFMerge(dst, ks...) }, func() { err = r.PFMergeCtx(ctx, dst, ks...) })
 	case "Ping":
 		do(func() { r.Ping() }, func() { r.PingCtx(ctx) })
+	case "Pipelined":
+		fn := func(p redis.Pipeliner) error {
+			p.Set(ctx, k, s, 0)
+			p.Get(ctx, k)
+			return nil
+		}
+		do(func() { err = r.Pipelined(fn) }, func() { err = r.PipelinedCtx(ctx, fn) })
 	case "RPop":
 		do(func() { _, err = r.RPop(k) }, func() { _, err = r.RPopCtx(ctx, k) })
 	case "RPush":
@@ -282,10 +294,9 @@ func c12Call(r *redis.Redis, m string, a kit.M, uc bool) error {
 		}
 		do(func() { _, err = r.ZUnionStore(dst, zs) }, func() { _, err = r.ZUnionStoreCtx(ctx, dst, zs) })
 	default:
-		return fmt.Errorf("verif: unknown method %q", m)
+		return false, nil
 	}
-	_ = err // the reply is not the subject of the wire tier
-	return nil
+	return true, err
 }
 
 func TestVerifC12Wire(t *testing.T) {
@@ -317,8 +328,8 @@ func TestVerifC12Wire(t *testing.T) {
 		for _, uc := range []bool{false, true} {
 			s.FlushAll()
 			rec.take()
-			if err := c12Call(r, m, a, uc); err != nil {
-				v = kit.Verdict{Case: c.Index, Infra: true, Msg: err.Error()}
+			if known, _ := c12CallCtx(context.Background(), r, m, a, uc); !known { // the reply is not the subject of the wire tier
+				v = kit.Verdict{Case: c.Index, Infra: true, Msg: "no driver call for method " + m}
 				break
 			}
 			v.Steps++
@@ -361,34 +372,106 @@ func TestVerifC12Breaker(t *testing.T) {
 	defer other.Close()
 	cancelled, cancel := context.WithCancel(context.Background())
 	cancel()
+	// sample arguments per entry point: the first row of the wire table (VERIF_WIRE) that sends something
+	sample := map[string]kit.M{}
+	if rows, err := kit.LoadCases(kit.Env("VERIF_WIRE", "")); err == nil {
+		for _, row := range rows {
+			m := kit.Str(row.Steps[0]["m"])
+			if _, ok := sample[m]; !ok && len(kit.List(row.Steps[0]["w"])) > 0 {
+				sample[m] = row.Steps[0]["a"].(kit.M)
+			}
+		}
+	} else {
+		t.Fatal(err)
+	}
+	// one call through entry point m in the manner `kind`
+	const nilScript = "return false"
+	nilSha := ""
+	entryCall := func(r *redis.Redis, m, kind string, j int) (error, bool) {
+		ctx, uc := context.Background(), j%2 == 1
+		if kind == "cancel" {
+			ctx, uc = cancelled, true
+		}
+		if kind == "nil" {
+			switch m {
+			case "Eval":
+				if uc {
+					_, err := r.EvalCtx(ctx, nilScript, []string{"missing"})
+					return err, true
+				}
+				_, err := r.Eval(nilScript, []string{"missing"})
+				return err, true
+			case "EvalSha":
+				if uc {
+					_, err := r.EvalShaCtx(ctx, nilSha, []string{"missing"})
+					return err, true
+				}
+				_, err := r.EvalSha(nilSha, []string{"missing"})
+				return err, true
+			case "Pipelined":
+				fn := func(p redis.Pipeliner) error {
+					p.Get(ctx, "missing")
+					return nil
+				}
+				if uc {
+					return r.PipelinedCtx(ctx, fn), true
+				}
+				return r.Pipelined(fn), true
+			}
+		}
+		a, ok := sample[m]
+		if !ok {
+			return nil, false
+		}
+		known, err := c12CallCtx(ctx, r, m, a, uc)
+		return err, known
+	}
 	for _, c := range cases {
 		if c.Index%shards != shard {
 			continue
 		}
 		s.FlushAll()
 		s.Set("present", "1")
+		if sha, err := redis.New(s.Addr()).ScriptLoad(nilScript); err == nil {
+			nilSha = sha
+		}
 		// a fresh wrapper object = a fresh breaker for the address
 		r, ro := redis.New(s.Addr()), redis.New(other.Addr())
 		v := kit.Verdict{Case: c.Index, OK: true}
 		var trail []string
 	steps:
 		for i, st := range c.Steps {
-			kind, n, expect := kit.Str(st["kind"]), kit.Num(st["n"]), kit.Str(st["expect"])
-			trail = append(trail, fmt.Sprintf("%s*%d", kind, n))
+			kind, n, expect, m := kit.Str(st["kind"]), kit.Num(st["n"]), kit.Str(st["expect"]), kit.Str(st["m"])
+			if m == "" {
+				trail = append(trail, fmt.Sprintf("%s*%d", kind, n))
+			} else {
+				trail = append(trail, fmt.Sprintf("%s:%s*%d", kind, m, n))
+			}
 			if kind == "down" {
 				s.Close()
 			}
 			rejected := 0
 			for j := 0; j < n; j++ {
 				var err error
-				switch kind {
-				case "ok":
+				switch {
+				case m != "":
+					var known bool
+					if err, known = entryCall(r, m, kind, j); !known {
+						v = kit.Verdict{Case: c.Index, Infra: true, Msg: "breaker-guarded entry point without a driver call: " + m}
+						break steps
+					}
+					rep.Count("entry."+kind, 1)
+				default:
+				}
+				switch {
+				case m != "":
+				case kind == "ok":
 					_, err = r.Get("present")
-				case "nil":
+				case kind == "nil":
 					_, err = r.HGet("missing", "f")
-				case "cancel":
+				case kind == "cancel":
 					_, err = r.GetCtx(cancelled, "present")
-				case "down":
+				case kind == "down":
 					_, err = r.Get("present")
 				}
 				v.Steps++
@@ -397,7 +480,8 @@ func TestVerifC12Breaker(t *testing.T) {
 				} else {
 					// sanity of the harness: the burst really produced what its name says
 					ok := (kind == "ok" && err == nil) || (kind == "nil" && err == redis.Nil) ||
-						(kind == "cancel" && err == context.Canceled) || (kind == "down" && err != nil)
+						(kind == "cancel" && (errors.Is(err, context.Canceled) || m == "Ping" || m == "ScriptLoad")) ||
+						(kind == "down" && (err != nil || m == "Ping"))
 					if !ok {
 						v = kit.Verdict{Case: c.Index, Infra: true, Msg: fmt.Sprintf("step %d %s burst: unexpected result %v", i, kind, err)}
 						break steps
@@ -405,6 +489,9 @@ func TestVerifC12Breaker(t *testing.T) {
 				}
 				if (expect == "never-reject" && err == breaker.ErrServiceUnavailable) || (expect == "must-reject" && err != breaker.ErrServiceUnavailable) {
 					v.OK, v.Step, v.Key = false, i, "C12:breaker:"+expect+":after-"+strings.Join(kinds(trail[:len(trail)-1]), "+")+":on-"+kind
+					if m != "" {
+						v.Key += ":" + m
+					}
 					v.Msg = fmt.Sprintf("history %s: command %d of the %s burst returned %v, specification %s", strings.Join(trail, " "), j+1, kind, err, expect)
 					break steps
 				}
